@@ -39,7 +39,9 @@ class DecodedStrxSectionEditor:
     ) -> OrderedDict[str, int]:
         """Only add strings not already in the STRx, and which are unique."""
         unique_strings_to_add = OrderedDict()
-        already_existing_strings = set(decoded_strx_section.strings)
+        already_existing_strings = self._find_strings_resolvable_by_id(
+            decoded_strx_section
+        )
         for string_to_add in strings_to_add:
             if string_to_add in already_existing_strings:
                 self.log.warning(
@@ -74,13 +76,11 @@ class DecodedStrxSectionEditor:
         highest_offset = None
         highest_string = None
         for string_to_add in unique_strings_to_add:
-            if highest_offset is None and highest_string is None:
-                (
-                    highest_offset,
-                    highest_string,
-                ) = self._find_initial_highest_offset_and_string(decoded_strx_section)
-                new_offset = (
-                    (highest_offset + total_offset_increase) + len(highest_string) + 1
+            if highest_offset is None or highest_string is None:
+                # the first new string starts where the existing string data ends;
+                # offsets are not required to be sorted or to reference the last string
+                new_offset = self._find_end_of_string_data(
+                    decoded_strx_section, new_number_of_strings
                 )
             else:
                 # if they are defined, we use the previous string offset we just added
@@ -97,16 +97,39 @@ class DecodedStrxSectionEditor:
             _strings=decoded_strx_section.strings + list(unique_strings_to_add.keys()),
         )
 
-    def _find_initial_highest_offset_and_string(
-        self, decoded_strx_section: DecodedStrxSection
-    ) -> tuple[int, str]:
-        """Finds the initial highest offset and its corresponding string to determine
-        where to allocate a new string."""
-        highest_offset = max(decoded_strx_section.strings_offsets)
+    @classmethod
+    def _find_end_of_string_data(
+        cls, decoded_strx_section: DecodedStrxSection, new_number_of_strings: int
+    ) -> int:
+        """Finds the offset just past the existing string data, once the offset table
+        has grown to hold new_number_of_strings offsets."""
+        size_of_header = 4 + (4 * new_number_of_strings)
+        size_of_string_data = sum(
+            len(string_) + 1 for string_ in decoded_strx_section.strings
+        )
+        return size_of_header + size_of_string_data
+
+    @classmethod
+    def _find_strings_resolvable_by_id(
+        cls, decoded_strx_section: DecodedStrxSection
+    ) -> set[str]:
+        """Finds every string an existing string ID (offset) resolves to.
+
+        String data no offset refers to has no ID, so it does not count as existing.
+        """
         str_binary_data = ChkStrxTranscoder().encode(
             decoded_strx_section, include_header=False
         )
-        string_for_highest_offset = RichStrLookupBuilder.get_rich_string_by_offset(
-            offset=highest_offset, str_binary_data=str_binary_data
-        ).value
-        return highest_offset, string_for_highest_offset
+        resolvable_strings: set[str] = set()
+        for offset in decoded_strx_section.strings_offsets:
+            if 0 <= offset < len(str_binary_data):
+                try:
+                    resolvable_strings.add(
+                        RichStrLookupBuilder.get_rich_string_by_offset(
+                            offset=offset, str_binary_data=str_binary_data
+                        ).value
+                    )
+                except (IndexError, UnicodeDecodeError):
+                    # offset does not reach a null terminator or is not text
+                    pass
+        return resolvable_strings
